@@ -105,7 +105,10 @@ func (pe *PeriodicalExecutor) executeTasks(tasks any) bool {
 
 	ok := pe.hasTasks(tasks)
 	if ok {
-		pe.container.Execute(tasks)
+		// 执行函数的 panic 只记录日志，不能拖垮后台刷新协程（否则 guarded 永远为真而无人刷新）
+		threading.RunSafe(func() {
+			pe.container.Execute(tasks)
+		})
 	}
 
 	return ok
